@@ -1682,3 +1682,31 @@ func injectorTemplateForms() []*Program {
 	}
 	return progs
 }
+
+// sameNameCleanupFamily: cleanup-returning providers that share one function name (New) across
+// packages - also packages sharing one package name - run before and after providers that can
+// fail: every bookkeeping keyed by a bare name confuses them.
+func sameNameCleanupFamily() []*Program {
+	var out []*Program
+	for v := 0; v < 4; v++ {
+		b := NewPB(fmt.Sprintf("snc%d", v), "app", "liba", "libb", "libc")
+		if v >= 2 {
+			b.P.Pkgs[1].Name, b.P.Pkgs[2].Name, b.P.Pkgs[3].Name = "store", "store", "store"
+		}
+		ta, tb, tc := b.Carrier(1, "Conn"), b.Carrier(2, "Conn"), b.Carrier(3, "Conn")
+		top := b.Carrier(0, "Top")
+		fa := b.Func(1, "New", PtrTo(ta), true, false)
+		fb := b.Func(2, "New", PtrTo(tb), true, v%2 == 1, PtrTo(ta))
+		fc := b.Func(3, "New", PtrTo(tc), true, true, PtrTo(tb))
+		ft := b.Func(0, "New", top, v%2 == 0, true, PtrTo(tc), PtrTo(ta))
+		items := []*Item{fc, fa, ft, fb}
+		b.Inj("Init", top, true, true, nil, refs(items...)...)
+		// a second injector stopping half-way
+		b.Inj("InitB", PtrTo(tb), true, true, nil, refs(fa, fb)...)
+		cell := fmt.Sprintf("same-name-cleanup-providers/variant=%d", v)
+		b.P.Note = cell
+		b.P.Feat = map[string]string{"cell": cell}
+		out = append(out, b.P)
+	}
+	return out
+}
